@@ -20,3 +20,9 @@ pub struct ExInstant(std::time::Instant);
 pub assume_specification [std::time::Instant::now] () -> std::time::Instant;
 pub assume_specification [std::time::Instant::elapsed] (_0: &std::time::Instant) -> std::time::Duration;
 pub assume_specification [std::time::Duration::as_millis] (_0: &std::time::Duration) -> u128;
+pub assume_specification [std::time::Duration::from_millis] (_0: u64) -> std::time::Duration;
+#[verifier::external_type_specification] #[verifier::external_body]
+pub struct ExTokioSleep(tokio::time::Sleep);
+pub assume_specification [tokio::time::sleep] (_0: std::time::Duration) -> tokio::time::Sleep;
+#[verifier::external_body]
+pub broadcast proof fn axiom_fmt_duration() ensures #[trigger] vstd::std_specs::fmt::fmt_req_all::<std::time::Duration>() {}
